@@ -9,6 +9,11 @@ CFG_DEFS = {
     # NB the macro name is inverted: USE_MEMORY_ALLOCATION_FREE=1 means malloc/free
     "heap": {"defines": ["-DUSE_MEMORY_ALLOCATION_FREE=0"]},
     "dtostre": {"defines": ["-DUSE_CUSTOM_DTOSTRE=1"]},
+    # the documented extension point for application error codes (USE_USER_ERROR_LIST): descriptions with quotes, one of them
+    # longer than the 255-character response limit with a quote where the cut falls
+    "usererr": {"defines": ["-DUSE_USER_ERROR_LIST=1",
+                            '-DLIST_OF_USER_ERRORS=X(SCPI_ERROR_USER_OPTION,102,"Option \\"X\\" is not installed") '
+                            'X(SCPI_ERROR_USER_LONG,103,"The option that this command needs (abcdefghijabcdefghijabcdefghijabcdefghijabcdefghijabcdefghijabcdefghijabcdefghijabcdefghijabcdefghijabcdefghijabcdefghijabcdefghijabcdefghijabcdefghijabcdefghijabcdefghijabcdefghijabcdefghijabcdefghijabcdefghij) is \\"missing\\" here") X(SCPI_ERROR_USER_QUOTE,104,"\\"")']},
     # unsanitised -O2 build for the 2^32 sweeps (value-equality oracles only)
     "fast": {"defines": [], "fast": True},
     # libFuzzer builds
@@ -84,7 +89,7 @@ PROPS = {
                  "1..64 bytes, optionally followed by a direct SCPI_Parse of the NUL-terminated line; and grammar-decoded messages (headers "
                  "from the table, typed and malformed parameters, mutations). Handlers apply every SCPI_Param*/Expr*/Result* API with tight "
                  "caller buffers; the same grammar decoder driven by rapidcheck (c01) in the four configurations, a quarter of its cases also handed to SCPI_Parse directly. "
-                 "Oracle: any sanitizer report, structural invariants after every call, libFuzzer's 25 s hang detector / the 20 s CPU-time watchdog",
+                 "Oracle: any sanitizer report, structural invariants after every call, libFuzzer's 25 s hang detector / the 20 s CPU-time watchdog A quarter of the structure-aware cases run next to a second instrument in the same process (other table positions, shorter table, other units; fed the same chunks before/after, poked from handlers and write callbacks), an eighth on an interface without the optional callbacks.",
         "level_note": "libFuzzer campaigns are only approximately reproducible from a seed: the saved artifact is the reproducible unit; uninitialised reads are only visible where they change behaviour (no MSan)",
         "design_ref": "DESIGN.md section 4, C01",
         "runs": c01_runs,
@@ -112,7 +117,7 @@ PROPS = {
         "level": "random command tables whose handlers read every parameter type, emit every result type, fail, raise own errors, leave "
                  "streamed blocks unfinished or send block data without a header; A = 1..4 generated messages (well-formed and mutated, "
                  "failing midway, with unread parameters, deep compound headers, or ending incomplete and flushed); B = a generated "
-                 "terminated message; handler invocations, parameters, output bytes, flushes, error callbacks and the return value of B compared",
+                 "terminated message; handler invocations, parameters, output bytes, flushes, error callbacks and the return value of B compared An eighth of the cases run next to a second instrument in the same process.",
         "level_note": "B never reads status registers or the error queue and the queue (128) never overflows, so the only legitimate carry-over is excluded by construction",
         "design_ref": "DESIGN.md section 4, C09",
         "runs": simple("c09", cfgs=("default", "heap")),
@@ -126,7 +131,7 @@ PROPS = {
         "level": "random command tables with diverse scripted handlers x streams of 1..8 messages (well-formed and byte-mutated; blocks with "
                  "embedded CR/LF/;, strings, empty units, all three terminators, interior zero-length flush calls, possibly ending in an "
                  "incomplete message) x every single split point + 8 random chunkings + all-at-once, in a large buffer and in a buffer that "
-                 "is exactly sufficient (only chunkings the pending-byte profile of the reference run admits)",
+                 "is exactly sufficient (only chunkings the pending-byte profile of the reference run admits) An eighth of the streams run next to a second instrument that is fed every chunk and a lone CR.",
         "level_note": "return values of SCPI_Input are not compared (the statement does not mention them; C05 covers them per call); while finding "
                       "C08-F1 is listed, CR/LF inside any quoted span that is closed later is replaced by a blank before the stream is used",
         "design_ref": "DESIGN.md section 4, C08",
@@ -143,7 +148,7 @@ PROPS = {
                  "missing, surplus, wrong type, suffixed, unknown suffix, unknown mnemonic) with random 488.2 white space around the commas, "
                  "malformed fragments and trailing commas, in 1..3-unit messages with exact-fit and roomy input buffers, on an empty queue of 64 entries "
                  "or (a fifth of the cases) a queue of 1..3 entries that is already full when the message arrives, one case in forty a list of 250..400 items; return value of SCPI_Input for calls "
-                 "carrying several messages, incomplete tails and overruns",
+                 "carrying several messages, incomplete tails and overruns A quarter of the cases run next to a second instrument in the same process.",
         "level_note": "delivered values are compared exactly except where the documentation leaves them open (real number to an integer/bool reader, negative to an unsigned reader); a suffixed number given to Bool/Choice accepts -104 or -138; a non-decimal number is never given to a Bool reader (left open)",
         "design_ref": "DESIGN.md section 4, C05",
         "runs": simple("c05", cfgs=("default", "noinfo", "heap")),
@@ -155,7 +160,7 @@ PROPS = {
         "technique": "reference-model comparison: independent renderer of every result type and of the response framing, byte-exact against captured write()/flush() calls, over rapidcheck-generated handler scripts and messages",
         "level": "random tables of query handlers emitting 0..4 items of every result type (one array item in 25 with 250..600 elements) that succeed, fail silently or raise their own error "
                  "before/between/after items, command handlers, undefined headers and ill-typed parameters, in messages of 1..6 units, "
-                 "optionally after a previous message on the same context; output bytes, flush count and write/flush order compared",
+                 "optionally after a previous message on the same context; output bytes, flush count and write/flush order compared A quarter of the cases run next to a second instrument, a fifth on an interface without flush/control/reset callbacks.",
         "level_note": "two readings of 'responds' are accepted (a successful query that emits nothing is or is not an empty response unit); "
                       "bytes written by a handler that later fails form a unit under both; command handlers never emit",
         "design_ref": "DESIGN.md section 4, C06",
@@ -168,7 +173,7 @@ PROPS = {
         "technique": "reference-model comparison over rapidcheck-generated (command table, message) pairs: effective headers computed from the written text, first-match lookup with the independent matcher of C03, compared with the handler/error trace of the real parser",
         "level": "random tree-shaped command tables of 3..10 patterns (shared prefixes, optional and numeric keywords, common commands, "
                  "overlapping and duplicate patterns) x well-formed messages of 1..6 units whose headers are spellings of entries written "
-                 "absolutely, with leading colon or relative to the preceding unit, undefined headers and common commands, with optional leading white space and 0..2 parameters",
+                 "absolutely, with leading colon or relative to the preceding unit, undefined headers and common commands, with optional leading white space and 0..2 parameters A fifth of the table entries fail after reading their parameters; a quarter of the cases run next to a second instrument in the same process (see C01).",
         "level_note": "all four build configurations; the -113 text is only required to contain the header as written; numeric suffixes are compared when the reference matching is unique",
         "design_ref": "DESIGN.md section 4, C02",
         "runs": simple("c02", cfgs=("default", "noinfo", "heap", "dtostre")),
@@ -183,7 +188,7 @@ PROPS = {
                  "a quarter of the literals decoded after an out-of-range literal on the same context, in-range "
                  "integer literals for the four integer widths, #H/#Q/#B literals up to the type width, literals with every suffix of the "
                  "golden unit table in random case with 0..2 blanks, all special mnemonics and near misses, delivered as 'CMD <literal>' to "
-                 "Int32/UInt32/Int64/UInt64/Float/Double/Number readers; values compared as bit patterns; plus the full unit table x case patterns",
+                 "Int32/UInt32/Int64/UInt64/Float/Double/Number readers; values compared as bit patterns; plus the full unit table x case patterns A fifth of the suffixed literals use a user-supplied unit table with mixed-case names; a quarter of the cases run next to a second instrument with another unit table.",
         "level_note": "trusts glibc strtod/strtof for correct rounding of the canonical (white-space free) text; integer readers are only given "
                       "in-range integer literals; non-decimal literals wider than the target type are not generated",
         "design_ref": "DESIGN.md section 4, C04",
@@ -198,7 +203,7 @@ PROPS = {
         "level": "all 984 patterns of 1..3 distinct keywords (mandatory/optional, plain/numeric, with/without ?) against all headers of 1..3 "
                  "(quick) / 1..4 (thorough) mnemonics over 18 forms x leading colon x ?, plus random patterns of up to 4 keywords over a "
                  "12-name pool and the 61 shipped patterns against spellings and near misses (random case) through the live parser, written in full and "
-                 "as the last keyword of a second unit of a compound message (relative form)",
+                 "as the last keyword of a second unit of a compound message (relative form) A quarter of the live cases run next to a second instrument that is sent the same header with other suffix digits from inside the handler.",
         "level_note": "headers are lexically valid mnemonics with at most 9 suffix digits; ambiguous (pattern, header) pairs (more than one "
                       "reference matching) are skipped and counted; acceptance and numbers[] (sentinel pre-filled, canary after the end) are compared",
         "design_ref": "DESIGN.md section 4, C03",
@@ -212,7 +217,7 @@ PROPS = {
         "technique": "reference-model comparison: independent prefix reader of the numeric/channel list syntax over all short expression bodies, generator-structure oracle for rapidcheck grammar-generated and mutated lists",
         "level": "all expression bodies up to 6 (quick) / 7 (thorough) characters over {1 2 - . : , ! @ space x} queried at entries 0..4 with "
                  "capacities 0..4, plus grammar-generated lists of up to 8 entries / 5 dimensions and mutations of them queried at entries 0..9 "
-                 "with capacities 0..5 (exact-size value arrays under ASan), plus two lists as parameters of one command read in fixed and generated interleavings",
+                 "with capacities 0..5 (exact-size value arrays under ASan), plus two lists as parameters of one command read in fixed and generated interleavings Pairs of lists parsed one after the other at the same buffer address on one context and read in five walks each (ascending, descending, direct, mixed), also generated.",
         "level_note": "for ill-formed numeric lists only 'not OK' is asserted (the statement does not choose between NO_MORE and ERROR); "
                       "channel lists are compared three-valued; integer values are compared when the written token is an integer literal",
         "design_ref": "DESIGN.md section 4, C19",
@@ -227,7 +232,7 @@ PROPS = {
         "level": "all ten element types x lengths 0..300 x NORMAL/SWAPPED, blocks 0..300 bytes, header-only calls for every power of ten up to "
                  "10^8 and 999999999, every split of a streamed block of <= 12 bytes into <= 4 data calls with an over-length attempt at "
                  "every point and items before/after, blocks left at every fill level by one unit of a compound message and continued without a header by the next unit(s), "
-                 "plus random sequences of arrays, blocks, streamed blocks and scalars over 1..3 units of one message; byte-identical output, exactly one -310 per refused data call",
+                 "plus random sequences of arrays, blocks, streamed blocks and scalars over 1..3 units of one message; byte-identical output, exactly one -310 per refused data call A quarter of the cases run next to a second instrument that answers the same query from inside this one's write callback.",
         "level_note": "only a little-endian host can be executed; the response terminator is not asserted here (C06); a block header is always followed by at least one data call; "
                       "left open: an empty data call where no block was announced, and the separator before an item that follows an incomplete block in a later unit",
         "design_ref": "DESIGN.md section 4, C17",
@@ -241,7 +246,7 @@ PROPS = {
         "technique": "model-based stateful testing in the static-heap build: reference queue whose entries carry 'the pushed text or nothing', unique texts per history, exact-size heap under ASan, full-reuse probe after every history",
         "level": "all operation sequences over pushes with texts of every length 0..heap size, text-less pushes, SYST:ERR?, pop+release and clear "
                  "for heap sizes 2..12 and queue capacities 1..4 up to a per-heap length bound (listed in the evidence), plus random histories "
-                 "of up to 1000 operations on heaps of 2..256 bytes; texts are pushed NUL-terminated, from exact-size unterminated buffers with an explicit length, and with an explicit length shorter than what follows",
+                 "of up to 1000 operations on heaps of 2..256 bytes; texts are pushed NUL-terminated, from exact-size unterminated buffers with an explicit length, and with an explicit length shorter than what follows Pop-and-keep / release-kept operations: a text the application popped stays unchanged until it gives it back (released before the next push with text).",
         "level_note": "only the USE_MEMORY_ALLOCATION_FREE=0 configuration is built; popped texts are released by the harness with scpiheap_free(..., false) as SCPI_SystemErrorNextQ does; texts are at most 255 characters",
         "design_ref": "DESIGN.md section 4, C20",
         "runs": simple("c20", cfgs=("heap",)),
@@ -255,7 +260,7 @@ PROPS = {
         "level": "every operation sequence up to length 6 (quick) / 8 (thorough) over a 7-letter alphabet x capacities 1..4 x failure of every "
                  "single text duplication, plus random histories of up to 300 and up to 10^4 operations with arbitrary 7-bit texts of 0..300 "
                  "characters, plus one scheduled history of 70 k (quick) / 400 k (thorough) pushes per capacity in {1..7, 12, 16, 17}, "
-                 "in the malloc build and the build without device-dependent information",
+                 "in the malloc build and the build without device-dependent information A quarter of the random cases have an application backlog that the error callback re-queues when the queue runs empty.",
         "level_note": "texts popped through SCPI_ErrorPop are released by the harness exactly as SCPI_SystemErrorNextQ does; leak detection = "
                       "every pointer returned by the wrapped strndup must reach the wrapped free by the end of the case (LeakSanitizer at exit as a backstop)",
         "design_ref": "DESIGN.md section 4, C10",
@@ -272,7 +277,7 @@ PROPS = {
         "level": "the five summary equations are evaluated after every operation on (a) the complete reachable state space of each register "
                  "group (thorough: each pair of groups) over 3 representative bits per register x 8 SRE values x queue fill, (b) every "
                  "operation sequence up to length 3 (quick) / 4 (thorough) from the initial state, (c) random walks of up to 200 operations "
-                 "over full 16-bit values",
+                 "over full 16-bit values A third of the random walks use a service-request callback that returns an error or re-enters the library (reads and clears ESR, disarms SRE, pushes an error).",
         "level_note": "operations are public API calls and command lines of the shipped IEEE 488.2 / STATus handlers; the status byte is never written directly; no device-dependent texts (snapshots are memcpy copies)",
         "design_ref": "DESIGN.md section 4, C11",
         "runs": simple("c11"),
@@ -286,7 +291,7 @@ PROPS = {
         "technique": "reference classification table over all 65536 codes; latch/persistence/service-request rules checked on every transition of the C11 exploration (closure, bounded sequences, rapidcheck walks)",
         "level": "all 65536 error codes against the class table; condition->event latching, persistence of event bits except under the defined "
                  "clears, and the service-request callback (value = status byte with MSS, called on every MSS rise - of the MSS bit as shown and of MSS as defined by the registers) on every transition of "
-                 "the state-space closure, all operation sequences up to length 3/4 and random walks",
+                 "the state-space closure, all operation sequences up to length 3/4 and random walks A third of the random walks use a service-request callback that returns SCPI_RES_ERR.",
         "level_note": "extra callbacks while MSS stays 1 are allowed; the -350 substituted on overflow is not checked for a class bit",
         "design_ref": "DESIGN.md section 4, C12",
         "runs": simple("c12"),
@@ -299,11 +304,11 @@ PROPS = {
         "technique": "reference-model comparison (independent longest-fitting-prefix encoder and 488.2 string reader) over an enumerated grid of codes, text lengths and quote positions plus rapidcheck-generated texts",
         "level": "SYST:ERR? output for every code of the error list, a strided (quick) or complete (thorough) sweep of all 65536 codes, text "
                  "lengths 0..400 with quotes at and around the 255-character boundary, explicit and automatic info lengths, in the malloc "
-                 "build and the static-heap build (texts placed so that they wrap around the end of the heap)",
+                 "build and the static-heap build (texts placed so that they wrap around the end of the heap) Third configuration: an application error list (USE_USER_ERROR_LIST) whose descriptions contain quotes and exceed the limit.",
         "level_note": "descriptions are taken from the library's own LIST_OF_ERRORS macro (the property is about framing, not wording); for an "
                       "empty device-dependent text both 'desc' and 'desc;' are accepted",
         "design_ref": "DESIGN.md section 4, C18",
-        "runs": simple("c18", cfgs=("default", "heap")),
+        "runs": simple("c18", cfgs=("default", "heap", "usererr"), quick_workers=18, thorough_workers=18),
         "rule": "case = (code, text, info length, heap placement); grid cases distinct by construction, random by hash; non-trivial = "
                 "description;text longer than 200 characters or text containing a double quote",
         "assumptions": COMMON_ASSUME + ["explicit info lengths never exceed strlen(text); texts are NUL-terminated C strings"],
@@ -313,7 +318,7 @@ PROPS = {
         "technique": "exact-size heap buffers under ASan + canaries over an enumerated (value x every length) grid and rapidcheck-generated values; oracle: bounded write, NUL placement, returned length, prefix of the full text",
         "level": "every printable unit, special tag, a set of doubles, dtostre precisions/flags, quoted texts with doubled quotes at every "
                  "position and integer extremes crossed with every buffer length 0..40 (thorough 0..70), plus random values and lengths, "
-                 "in the printf and the USE_CUSTOM_DTOSTRE build",
+                 "in the printf and the USE_CUSTOM_DTOSTRE build Buffer lengths up to 65536 around the 8/16-bit marks; SCPI_ParamCopyText also with copy_len == NULL.",
         "level_note": "memory errors are observed through ASan red zones of exact-size allocations (length 0 = one-past-end pointer); the full "
                       "text used for the prefix check comes from the same function with a 160-byte buffer",
         "design_ref": "DESIGN.md section 4, C15",
@@ -327,7 +332,7 @@ PROPS = {
         "technique": "differential against libstdc++ std::to_chars (Ryu) for the printf build; exact decimal distance oracle (__int128) for the built-in formatter at every precision",
         "level": "random doubles/floats over the whole exponent range, rounding-boundary and zero-digit values, every k*10^e, NaN/inf, in the "
                  "printf build (text identical to an independent %g implementation) and the USE_CUSTOM_DTOSTRE build (within one unit of "
-                 "the last requested digit for precisions 1..15, %g shape)",
+                 "the last requested digit for precisions 1..15, %g shape) A third of the random cases convert v, -v, v, -|v|, +|v| back to back.",
         "level_note": "trusts libstdc++'s std::to_chars (general and scientific formats) as the independent reference for correctly rounded digits",
         "design_ref": "DESIGN.md section 4, C16",
         "runs": simple("c16", cfgs=("default", "dtostre")),
@@ -356,7 +361,7 @@ PROPS = {
         "level": "every 32-bit value x signed/unsigned x bases 2/8/10/16 (thorough: complete; quick: stratified 2^24), boundary 32/64-bit "
                  "values x 12 bases x every buffer length 0..70 in exact-size heap buffers under ASan, every value with one to three non-zero digits and "
                  "every run of the largest digit in bases 10/16/8/2, and random 64-bit values (uniform, near powers, sparse decimals), all compared "
-                 "byte for byte (text, return value, NUL placement) with an independent formatter",
+                 "byte for byte (text, return value, NUL placement) with an independent formatter Buffer lengths 71..70000 around the 8/16-bit marks for boundary values and in the random cases.",
         "level_note": "trusts the reference formatter in harness/c14.cpp, ASan red zones and canaries; 64-bit space is sampled, not enumerated",
         "design_ref": "DESIGN.md section 4, C14",
         "runs": c14_runs,
